@@ -44,8 +44,9 @@ pub fn snapshot(root: &Path, skip: &[PathBuf]) -> Vec<(PathBuf, String, u32)> {
 pub fn delete(_thorough: bool) -> Report {
     let mut r = Report::new(
         "witness search on a real tempdir: layer trees built from every entry kind {file, read-only dir, non-executable dir, nested dir, symlink to outside file, symlink to outside dir, symlink to sibling layer, dangling symlink, self loop, relative link} placed at the top and one level down, and the layer path itself being a dir / symlink to an outside dir / symlink to a file / dangling; deleted via uncached_layer and via cached_layer+DeleteLayer: everything outside <layers>/x, x.toml and x.sbom.* (canary tree, sibling layer, modes) is byte- and mode-identical afterwards and the layer is an empty directory; non-trivial = trees containing a symlink or a restricted directory",
-        "10 entry kinds x 2 depths x 4 layer-path kinds x 2 API calls",
+        "2 layer names (plain, dotted with a sibling sharing the stem) x 10 entry kinds x 2 depths x 4 layer-path kinds x 2 API calls",
     );
+    for lname in ["x", "other.v2"] {
     for layer_kind in 0..4 {
         for entry in 0..10 {
             for depth in 0..2 {
@@ -57,7 +58,7 @@ pub fn delete(_thorough: bool) -> Report {
                     fs::set_permissions(&outside, fs::Permissions::from_mode(0o750)).unwrap();
                     let layers = root.join("layers"); fs::create_dir_all(layers.join("other/bin")).unwrap(); fs::write(layers.join("other/bin/t"), b"t").unwrap(); fs::write(layers.join("other.toml"), b"[types]\nlaunch = true\n").unwrap();
                     fs::write(layers.join("other.sbom.cdx.json"), b"{}").unwrap();
-                    let x = layers.join("x");
+                    let x = layers.join(lname);
                     let real_dir: PathBuf = match layer_kind {
                         0 => { fs::create_dir(&x).unwrap(); x.clone() }
                         1 => { let target = root.join("linked"); fs::create_dir_all(&target).unwrap(); fs::write(target.join("keepme"), b"k").unwrap(); symlink(&target, &x).unwrap(); target }
@@ -80,15 +81,16 @@ pub fn delete(_thorough: bool) -> Report {
                             _ => symlink("../../outside", &e).unwrap(),
                         }
                     }
-                    fs::write(layers.join("x.toml"), b"[types]\ncache = true\n").unwrap(); fs::write(layers.join("x.sbom.spdx.json"), b"{}").unwrap();
-                    let skip = vec![layers.join("x"), layers.join("x.toml"), layers.join("x.sbom.cdx.json"), layers.join("x.sbom.spdx.json"), layers.join("x.sbom.syft.json")];
+                    fs::write(layers.join(format!("{lname}.toml")), b"[types]\ncache = true\n").unwrap(); fs::write(layers.join(format!("{lname}.sbom.spdx.json")), b"{}").unwrap();
+                    let skip = vec![layers.join(lname), layers.join(format!("{lname}.toml")), layers.join(format!("{lname}.sbom.cdx.json")), layers.join(format!("{lname}.sbom.spdx.json")), layers.join(format!("{lname}.sbom.syft.json"))];
+                    let ln = || lname.parse::<libcnb::data::layer::LayerName>().unwrap();
                     let before = snapshot(root, &skip);
                     let c = ctx(&layers);
-                    let res = if api == 0 { c.uncached_layer(layer_name!("x"), UncachedLayerDefinition { build: true, launch: false }).map(|_| ()) }
-                        else { c.cached_layer(layer_name!("x"), CachedLayerDefinition { build: true, launch: false, invalid_metadata_action: &|_| InvalidMetadataAction::DeleteLayer, restored_layer_action: &|_: &GenericMetadata, _| RestoredLayerAction::DeleteLayer }).map(|_| ()) };
+                    let res = if api == 0 { c.uncached_layer(ln(), UncachedLayerDefinition { build: true, launch: false }).map(|_| ()) }
+                        else { c.cached_layer(ln(), CachedLayerDefinition { build: true, launch: false, invalid_metadata_action: &|_| InvalidMetadataAction::DeleteLayer, restored_layer_action: &|_: &GenericMetadata, _| RestoredLayerAction::DeleteLayer }).map(|_| ()) };
                     // restore permissions the harness itself restricted is not needed: those dirs are inside the layer
                     let after = snapshot(root, &skip);
-                    let desc = format!("layer path kind={layer_kind} (0 dir,1 link->dir,2 link->file,3 dangling) entry kind={entry} depth={depth} api={api} (0 uncached_layer,1 cached_layer+DeleteLayer)");
+                    let desc = format!("layer name {lname:?} (sibling layer: other), layer path kind={layer_kind} (0 dir,1 link->dir,2 link->file,3 dangling) entry kind={entry} depth={depth} api={api} (0 uncached_layer,1 cached_layer+DeleteLayer)");
                     if before != after {
                         let diff: Vec<_> = before.iter().filter(|b| !after.contains(b)).take(3).collect();
                         let diff2: Vec<_> = after.iter().filter(|b| !before.contains(b)).take(3).collect();
@@ -100,12 +102,13 @@ pub fn delete(_thorough: bool) -> Report {
                         let md = fs::symlink_metadata(&x);
                         let empty = md.as_ref().map(|m| m.is_dir()).unwrap_or(false) && fs::read_dir(&x).map(|mut d| d.next().is_none()).unwrap_or(false);
                         if !empty { r.violation("all_gone", "layer is not an empty real directory after delete+create", desc.clone(), "empty dir".into(), format!("{:?}", md.map(|m| m.file_type()))); }
-                        if layers.join("x.sbom.spdx.json").exists() { r.violation("all_gone", "SBOM of the deleted layer survived", desc.clone(), "absent".into(), "present".into()); }
+                        if layers.join(format!("{lname}.sbom.spdx.json")).exists() { r.violation("all_gone", "SBOM of the deleted layer survived", desc.clone(), "absent".into(), "present".into()); }
                     }
                     if res.is_err() && layer_kind == 0 { r.violation("delete_ok", "deleting an ordinary layer tree failed", desc, "Ok".into(), format!("{:?}", res.err().map(|e| e.to_string()))); }
                 }
             }
         }
+    }
     }
     r.samples.push("layer path kind=1 (symlink to a directory elsewhere), uncached_layer".into());
     r
